@@ -1,6 +1,7 @@
 open Model
 open Common
 
+let show_cmp = function Eq -> "eq" | Lt -> "lt" | Gt -> "gt"
 let opt f = function None -> "none" | Some x -> f x
 
 (* value of an insert = its position in the history *)
